@@ -18,7 +18,7 @@ import (
 	zz "github.com/regen-network/regen-ledger/x/ecocredit/v3/zzverif"
 )
 
-func symKeeper() (Keeper, []byte) {
+func zzvSymKeeper() (Keeper, []byte) {
 	ss := zz.OrmStore("marketplace").(marketapi.StateStore)
 	cs := zz.OrmStore("ecocredit").(baseapi.StateStore)
 	bk := zz.BankKeeper().(ecocredit.BankKeeper)
@@ -26,13 +26,13 @@ func symKeeper() (Keeper, []byte) {
 	return NewKeeper(ss, cs, bk, sdk.AccAddress(authority)), authority
 }
 
-func runStep(req sdk.Msg, call func(k Keeper, ctx context.Context) error, hook func(s *zzinv.Step)) {
+func zzvRunStep(req sdk.Msg, call func(k Keeper, ctx context.Context) error, hook func(s *zzinv.Step)) {
 	zzinv.Install()
-	k, authority := symKeeper()
+	k, authority := zzvSymKeeper()
 	zzinv.RunStep(authority, req, func(ctx context.Context) error { return call(k, ctx) }, nil, hook)
 }
 
-func govOnly(name string) func(s *zzinv.Step) {
+func zzvGovOnly(name string) func(s *zzinv.Step) {
 	return func(s *zzinv.Step) {
 		if s.Err == nil {
 			zz.Assert(zz.BytesEq(s.Signer, s.Authority), "C08 "+name+" succeeds only for the governance authority")
@@ -40,17 +40,17 @@ func govOnly(name string) func(s *zzinv.Step) {
 	}
 }
 
-func blockTime() time.Time { return sdk.UnwrapSDKContext(zz.Context()).BlockTime() }
+func zzvBlockTime() time.Time { return sdk.UnwrapSDKContext(zz.Context()).BlockTime() }
 
 func VerifHarness_Step_MarketSell() {
 	req := &types.MsgSell{}
-	runStep(req, func(k Keeper, ctx context.Context) error { _, err := k.Sell(ctx, req); return err },
+	zzvRunStep(req, func(k Keeper, ctx context.Context) error { _, err := k.Sell(ctx, req); return err },
 		func(s *zzinv.Step) {
 			if s.Err == nil {
 				for _, o := range req.Orders {
 					zz.Assert(zz.OrmExists0(zzinv.TAllowedDenom, o.AskPrice.Denom), "C06 Sell succeeds only with an ask denom on the allowed-denom list")
 					if o.Expiration != nil {
-						zz.Assert(zz.TimeLt(blockTime(), *o.Expiration), "C12 Sell accepts only an expiration strictly after block time")
+						zz.Assert(zz.TimeLt(zzvBlockTime(), *o.Expiration), "C12 Sell accepts only an expiration strictly after block time")
 					}
 				}
 				// every created order belongs to the signer
@@ -63,7 +63,7 @@ func VerifHarness_Step_MarketSell() {
 
 func VerifHarness_Step_MarketUpdateSellOrders() {
 	req := &types.MsgUpdateSellOrders{}
-	runStep(req, func(k Keeper, ctx context.Context) error { _, err := k.UpdateSellOrders(ctx, req); return err },
+	zzvRunStep(req, func(k Keeper, ctx context.Context) error { _, err := k.UpdateSellOrders(ctx, req); return err },
 		func(s *zzinv.Step) {
 			if s.Err == nil {
 				for _, u := range req.Updates {
@@ -74,7 +74,7 @@ func VerifHarness_Step_MarketUpdateSellOrders() {
 						zz.Assert(zz.OrmExists0(zzinv.TAllowedDenom, u.NewAskPrice.Denom), "C06 UpdateSellOrders accepts a new ask price only in an allowed denom")
 					}
 					if u.NewExpiration != nil {
-						zz.Assert(zz.TimeLt(blockTime(), *u.NewExpiration), "C12 UpdateSellOrders accepts only an expiration strictly after block time")
+						zz.Assert(zz.TimeLt(zzvBlockTime(), *u.NewExpiration), "C12 UpdateSellOrders accepts only an expiration strictly after block time")
 					}
 				}
 				zz.Assert(zz.AllWritten2(zzinv.TSellOrder, func(pre *marketapi.SellOrder, pe bool, post *marketapi.SellOrder, qe bool) bool {
@@ -86,7 +86,7 @@ func VerifHarness_Step_MarketUpdateSellOrders() {
 
 func VerifHarness_Step_MarketCancelSellOrder() {
 	req := &types.MsgCancelSellOrder{}
-	runStep(req, func(k Keeper, ctx context.Context) error { _, err := k.CancelSellOrder(ctx, req); return err },
+	zzvRunStep(req, func(k Keeper, ctx context.Context) error { _, err := k.CancelSellOrder(ctx, req); return err },
 		func(s *zzinv.Step) {
 			if s.Err == nil {
 				var so marketapi.SellOrder
@@ -98,7 +98,7 @@ func VerifHarness_Step_MarketCancelSellOrder() {
 		})
 }
 
-func buyDirectHook(req *types.MsgBuyDirect) func(s *zzinv.Step) {
+func zzvBuyDirectHook(req *types.MsgBuyDirect) func(s *zzinv.Step) {
 	return func(s *zzinv.Step) {
 		// C03 exception: the seller of a filled order loses exactly the purchased quantity
 		// from escrow (and nothing from tradable); everybody else loses nothing
@@ -148,7 +148,7 @@ func buyDirectHook(req *types.MsgBuyDirect) func(s *zzinv.Step) {
 
 func VerifHarness_Step_MarketBuyDirect() {
 	req := &types.MsgBuyDirect{}
-	runStep(req, func(k Keeper, ctx context.Context) error { _, err := k.BuyDirect(ctx, req); return err }, buyDirectHook(req))
+	zzvRunStep(req, func(k Keeper, ctx context.Context) error { _, err := k.BuyDirect(ctx, req); return err }, zzvBuyDirectHook(req))
 }
 
 // BuyDirect with two entries in one message (the same sell order may be named twice), in the
@@ -157,7 +157,7 @@ func VerifHarness_Step_MarketBuyDirect() {
 // harness above has no such restriction).
 func VerifHarness_Step_MarketBuyDirectTwo() {
 	req := &types.MsgBuyDirect{}
-	runStep(req, func(k Keeper, ctx context.Context) error {
+	zzvRunStep(req, func(k Keeper, ctx context.Context) error {
 		zz.Assume(len(req.Orders) == 2)
 		var fp marketapi.FeeParams
 		if zz.OrmRow0("regen.ecocredit.marketplace.v1.FeeParams", &fp) {
@@ -175,37 +175,37 @@ func VerifHarness_Step_MarketBuyDirectTwo() {
 		}
 		_, err := k.BuyDirect(ctx, req)
 		return err
-	}, buyDirectHook(req))
+	}, zzvBuyDirectHook(req))
 }
 
 func VerifHarness_Step_MarketAddAllowedDenom() {
 	req := &types.MsgAddAllowedDenom{}
-	runStep(req, func(k Keeper, ctx context.Context) error { _, err := k.AddAllowedDenom(ctx, req); return err }, govOnly("AddAllowedDenom"))
+	zzvRunStep(req, func(k Keeper, ctx context.Context) error { _, err := k.AddAllowedDenom(ctx, req); return err }, zzvGovOnly("AddAllowedDenom"))
 }
 
 func VerifHarness_Step_MarketRemoveAllowedDenom() {
 	req := &types.MsgRemoveAllowedDenom{}
-	runStep(req, func(k Keeper, ctx context.Context) error { _, err := k.RemoveAllowedDenom(ctx, req); return err }, govOnly("RemoveAllowedDenom"))
+	zzvRunStep(req, func(k Keeper, ctx context.Context) error { _, err := k.RemoveAllowedDenom(ctx, req); return err }, zzvGovOnly("RemoveAllowedDenom"))
 }
 
 func VerifHarness_Step_MarketGovSetFeeParams() {
 	req := &types.MsgGovSetFeeParams{}
-	runStep(req, func(k Keeper, ctx context.Context) error { _, err := k.GovSetFeeParams(ctx, req); return err }, govOnly("GovSetFeeParams"))
+	zzvRunStep(req, func(k Keeper, ctx context.Context) error { _, err := k.GovSetFeeParams(ctx, req); return err }, zzvGovOnly("GovSetFeeParams"))
 }
 
 func VerifHarness_Step_MarketGovSendFromFeePool() {
 	req := &types.MsgGovSendFromFeePool{}
-	runStep(req, func(k Keeper, ctx context.Context) error { _, err := k.GovSendFromFeePool(ctx, req); return err }, govOnly("GovSendFromFeePool"))
+	zzvRunStep(req, func(k Keeper, ctx context.Context) error { _, err := k.GovSendFromFeePool(ctx, req); return err }, zzvGovOnly("GovSendFromFeePool"))
 }
 
 // Begin-block processing: expired sell orders are pruned (C12, and the block-level parts
 // of C01..C06).
 func VerifHarness_Step_MarketPruneSellOrders() {
 	zzinv.Install()
-	k, _ := symKeeper()
+	k, _ := zzvSymKeeper()
 	sk := zzinv.PickSkolems()
 	order := zz.NondetU64("order*")
-	T := blockTime()
+	T := zzvBlockTime()
 	// block time is after the unix epoch (consensus)
 	zz.Assume(zz.TimeLt(time.Unix(0, 1), T))
 	zz.OrmBegin()
